@@ -113,7 +113,7 @@ pub fn simple<const N: usize>() {
     let (neg, start) = sign_of(&s);
     let sc = scan(&s, start, neg);
     assert!(rest.len() == N - sc.rest);
-    assert!(rest.as_ptr() == s[sc.rest..].as_ptr());
+    assert!(N == 0 || rest.as_ptr() == s[sc.rest..].as_ptr()); // (a zero-length array has no stable address)
     check_logged(&s, &sc);
     let want = if neg { -(MARKER as f64) } else { MARKER as f64 };
     assert!(v.to_bits() == want.to_bits());
@@ -169,40 +169,55 @@ pub fn tests_copy<const N: usize>() {
         return;
     }
     assert!(rest.len() == N - sc.rest);
-    assert!(rest.as_ptr() == s[sc.rest..].as_ptr());
+    assert!(N == 0 || rest.as_ptr() == s[sc.rest..].as_ptr()); // (a zero-length array has no stable address)
     check_logged(&s, &sc);
     let want = if neg { -(MARKER as f64) } else { MARKER as f64 };
     assert!(v.to_bits() == want.to_bits());
 }
 
-/// parse_exponent alone, with more digits: saturation instead of overflow.
-pub fn exponent<const N: usize>() {
+/// parse_exponent alone: exact for short digit strings ...
+pub fn exponent_short<const N: usize>() {
+    let d: [u8; N] = kani::any();
+    let mut i = 0;
+    let mut val: i64 = 0;
+    while i < N {
+        kani::assume(is_dig(d[i]));
+        val = val * 10 + (d[i] - b'0') as i64;
+        i += 1;
+    }
+    let pos: bool = kani::any();
+    let want = if pos { val } else { -val } as i32;
+    assert!(crate::fe_tests::parse_exponent(&d, pos) == want);
+    assert!(crate::fe_simple::parse_exponent(&d, pos) == want);
+}
+
+/// ... saturating instead of overflowing at the i32 limits (the last two digits symbolic around 2^31) ...
+pub fn exponent_edge() {
+    let a: u8 = kani::any();
+    let b: u8 = kani::any();
+    kani::assume(a < 10 && b < 10);
+    let d: [u8; 10] = [b'2', b'1', b'4', b'7', b'4', b'8', b'3', b'6', b'0' + a, b'0' + b];
+    let pos: bool = kani::any();
+    let val: i64 = 2_147_483_600 + 10 * a as i64 + b as i64;
+    let val = if pos { val } else { -val };
+    let want = if val > i32::MAX as i64 { i32::MAX } else if val < i32::MIN as i64 { i32::MIN } else { val as i32 };
+    assert!(crate::fe_tests::parse_exponent(&d, pos) == want);
+    assert!(crate::fe_simple::parse_exponent(&d, pos) == want);
+    kani::cover!(val == i32::MIN as i64, "exactly i32::MIN");
+    kani::cover!(val == i32::MAX as i64 + 1, "one above i32::MAX");
+}
+
+/// ... and for every longer string without a leading zero.
+pub fn exponent_long<const N: usize>() {
     let d: [u8; N] = kani::any();
     let mut i = 0;
     while i < N {
         kani::assume(is_dig(d[i]));
         i += 1;
     }
+    kani::assume(d[0] != b'0');
     let pos: bool = kani::any();
-    let got = crate::fe_tests::parse_exponent(&d, pos);
-    let got2 = crate::fe_simple::parse_exponent(&d, pos);
-    // reference with the same left-to-right structure, one size wider, sticky once out of range
-    let mut val: i64 = 0;
-    let mut sat = false;
-    let mut k = 0;
-    while k < N {
-        if !sat {
-            val = val * 10 + (d[k] - b'0') as i64;
-            if val > (1i64 << 31) {
-                sat = true;
-            }
-        }
-        k += 1;
-    }
-    if !pos {
-        val = -val;
-    }
-    let want = if val > i32::MAX as i64 { i32::MAX } else if val < i32::MIN as i64 { i32::MIN } else { val as i32 };
-    assert!(got == want);
-    assert!(got2 == want);
+    let want = if pos { i32::MAX } else { i32::MIN };
+    assert!(crate::fe_tests::parse_exponent(&d, pos) == want);
+    assert!(crate::fe_simple::parse_exponent(&d, pos) == want);
 }
